@@ -517,10 +517,14 @@ class Parser:
         """
         If a definition is followed by "with", "begin", a keyword corresponding
         to a command, or the name of an existing routine, it's defining a new
-        routine and not a variable.
+        routine and not a variable. A routine call may be written in square
+        brackets, and "return" is a command, too; no constant starts that way.
         """
         if (self._current_token.is_a(TokenTypes.NAME)
                 and self._context.has_routine(str(self._current_token))):
+            return True
+        if (self._current_token == '['
+                or self._current_token.is_a(TokenTypes.RETURN)):
             return True
         if self._current_token.token_type.is_executable():
             return True
